@@ -549,7 +549,17 @@ func (in *Interp) builtin(fr *frame, b *ssa.Builtin, c *ssa.CallCommon, args []V
 		case Str:
 			src = in.strBytes(s)
 		}
-		n := copy(dst.A, src)
+		n := len(dst.A)
+		if len(src) < n {
+			n = len(src)
+		}
+		tmp := make([]V, n)
+		for i := 0; i < n; i++ {
+			tmp[i] = copyVal(src[i])
+		}
+		for i := 0; i < n; i++ {
+			storeInto(&dst.A[i], tmp[i])
+		}
 		return in.cInt(uint64(n), 64, true)
 	case "delete":
 		if m := args[0].(*MapV); m != nil {
@@ -597,13 +607,13 @@ func (in *Interp) builtin(fr *frame, b *ssa.Builtin, c *ssa.CallCommon, args []V
 func (in *Interp) doSelect(fr *frame, x *ssa.Select) V {
 	s := in.sched
 	g := s.cur
-	s.point(g)
 	type st struct {
 		ch   *ChanV
 		send bool
 		val  V
 	}
 	var states []st
+	var objs []any
 	for _, ss := range x.States {
 		c, _ := in.get(fr, ss.Chan).(*ChanV)
 		e := st{ch: c, send: ss.Dir == types.SendOnly}
@@ -611,6 +621,12 @@ func (in *Interp) doSelect(fr *frame, x *ssa.Select) V {
 			e.val = in.get(fr, ss.Send)
 		}
 		states = append(states, e)
+		if c != nil {
+			objs = append(objs, c)
+		}
+	}
+	if len(objs) == 0 {
+		objs = []any{g}
 	}
 	ready := func() []int {
 		var r []int
@@ -628,24 +644,30 @@ func (in *Interp) doSelect(fr *frame, x *ssa.Select) V {
 		}
 		return r
 	}
-	r := ready()
-	if len(r) == 0 {
-		if !x.Blocking {
+	if !x.Blocking {
+		s.visible(objs, "select (non-blocking)", nil)
+		if len(ready()) == 0 {
 			return in.selectResult(x, -1, nil, false)
 		}
-		for _, e := range states {
-			if e.ch != nil && !e.send {
-				e.ch.recvWaiting++
+	} else {
+		waiting := len(ready()) == 0
+		if waiting {
+			for _, e := range states {
+				if e.ch != nil && !e.send {
+					e.ch.recvWaiting++
+				}
 			}
 		}
-		s.block(g, "select", func() bool { return len(ready()) > 0 })
-		for _, e := range states {
-			if e.ch != nil && !e.send {
-				e.ch.recvWaiting--
+		s.visible(objs, "select", func() bool { return len(ready()) > 0 })
+		if waiting {
+			for _, e := range states {
+				if e.ch != nil && !e.send {
+					e.ch.recvWaiting--
+				}
 			}
 		}
-		r = ready()
 	}
+	r := ready()
 	k := r[0]
 	if len(r) > 1 {
 		k = r[in.ex.take("select", len(r), nil)]
@@ -660,7 +682,7 @@ func (in *Interp) doSelect(fr *frame, x *ssa.Select) V {
 		} else {
 			w := &sendW{g: g, val: e.val}
 			e.ch.sendq = append(e.ch.sendq, w)
-			s.block(g, "select send", func() bool { return w.done })
+			s.visible([]any{e.ch}, "select send (waiting for receiver)", func() bool { return w.done })
 		}
 		return in.selectResult(x, k, nil, false)
 	}
